@@ -1000,8 +1000,8 @@ hdf_xdr_NCvdata(NC *handle, NC_var *vp, unsigned long where, nc_type type, uint3
                     alloc_status = SDIresizebuf((void **)&tBuf, &tBuf_size, tempbuf_size);
                 } /* if first allocation successes */
 
-                if (alloc_status == FAIL)        /* if any allocations fail */
-                    chunk_size = chunk_size / 2; /* try smaller chunk size */
+                if (alloc_status == FAIL) /* if any allocations fail, try a smaller chunk size: still a whole number of elements */
+                    chunk_size = (chunk_size / 2) - (chunk_size / 2) % vp->HDFsize;
 
                 if (chunk_size <= 0) /* unable to allocate any memory */
                 {
@@ -1112,6 +1112,9 @@ hdf_xdr_NCvdata(NC *handle, NC_var *vp, unsigned long where, nc_type type, uint3
                     goto done;
                 }
 
+                /* advance pvalues on buffer "values" past the block just processed */
+                pvalues = pvalues + data_size;
+
                 /* compute the number of elements left to be processed */
                 elements_left = elements_left - new_count;
 
@@ -1121,9 +1124,6 @@ hdf_xdr_NCvdata(NC *handle, NC_var *vp, unsigned long where, nc_type type, uint3
                     new_count = elements_left;
                     data_size = new_count * vp->szof;
                 }
-
-                /* advance pvalues on buffer "values" for next batch of data */
-                pvalues = pvalues + data_size;
             } /* while more elements left to be processed */
 
             SDPfreebuf(); /* free tBuf and tValues if any exist */
@@ -1183,6 +1183,9 @@ hdf_xdr_NCvdata(NC *handle, NC_var *vp, unsigned long where, nc_type type, uint3
                     ret_value = FAIL;
                     goto done;
                 }
+                /* advance pvalues on buffer "values" past the block just processed */
+                pvalues = pvalues + data_size;
+
                 /* compute the number of elements left to be processed */
                 elements_left = elements_left - new_count;
 
@@ -1192,9 +1195,6 @@ hdf_xdr_NCvdata(NC *handle, NC_var *vp, unsigned long where, nc_type type, uint3
                     new_count = elements_left;
                     data_size = new_count * vp->szof;
                 }
-
-                /* advance pvalues on buffer "values" for next batch of data */
-                pvalues = pvalues + data_size;
             } /* while more elements left to be processed */
 
             SDPfreebuf(); /* free tBuf and tValues if any exist */
@@ -1249,8 +1249,8 @@ hdf_xdr_NCvdata(NC *handle, NC_var *vp, unsigned long where, nc_type type, uint3
                     alloc_status = SDIresizebuf((void **)&tBuf, &tBuf_size, tempbuf_size);
                 } /* if first allocation successes */
 
-                if (alloc_status == FAIL)        /* if any allocations fail */
-                    chunk_size = chunk_size / 2; /* try smaller chunk size */
+                if (alloc_status == FAIL) /* if any allocations fail, try a smaller chunk size: still a whole number of elements */
+                    chunk_size = (chunk_size / 2) - (chunk_size / 2) % vp->HDFsize;
 
                 if (chunk_size <= 0) /* unable to allocate any memory */
                 {
